@@ -368,7 +368,7 @@ def parse_rvalue(s):
     if s.endswith(')'):
         k = _last_top_level_open(s, '(')
         path = s[:k].strip()
-        if re.fullmatch(r'[\w:<>,&\' \[\]\(\);\*\{\}@/\.\-#=]+', path) and '::' in path:
+        if re.fullmatch(r'[\w:<>,&\' \[\]\(\);\*\{\}@/\.\-#=+?!]+', path) and '::' in path:
             return ('agg_adt', path, {'pos': [parse_operand(x) for x in split_top(s[k + 1:-1])]})
     if re.match(r'^[\w<]', s):
         return ('agg_adt', s, None)
